@@ -154,7 +154,9 @@ where
                     // specified link, and the closed flag set to true. The partner will destroy
                     // the corresponding link endpoint, and reply with its own detach frame with
                     // the closed flag set to true.
-                    Err(DetachError::ClosedByRemote)
+                    //
+                    // The error carried by the peer's closing detach is why it closed the link
+                    Err(closed_by_remote(remote_detach.error))
                 } else {
                     self.link_mut().on_incoming_detach(remote_detach)
                 }
@@ -163,7 +165,7 @@ where
                 let remote_detach = recv_remote_detach(self).await?;
                 if remote_detach.closed {
                     reattach_and_then_close(self).await?;
-                    Err(DetachError::ClosedByRemote)
+                    Err(closed_by_remote(remote_detach.error))
                 } else {
                     self.link_mut().on_incoming_detach(remote_detach)
                 }
@@ -315,5 +317,13 @@ where
                 continue;
             }
         }
+    }
+}
+
+/// The peer answered a non-closing detach with a closing one
+fn closed_by_remote(error: Option<fe2o3_amqp_types::definitions::Error>) -> DetachError {
+    match error {
+        Some(error) => DetachError::RemoteClosedWithError(error),
+        None => DetachError::ClosedByRemote,
     }
 }
